@@ -10,6 +10,8 @@
 -/
 import BlocV.Model.CApi
 import BlocV.Proofs.Lemmas.CApi
+import BlocV.Proofs.Lemmas.CApiSeq
+import BlocV.Gen.Keywords
 
 namespace BlocV.C15
 open BlocV BlocV.CApi
@@ -343,5 +345,339 @@ theorem context_reusable_after_runtime_error (s : State) (c : Nat) (x : Ctx) (pr
           simp [writeBack, wb.1, hc.2]
         · simp [writeBack, wb.2.1, wb.2.2.1, wb.2.2.2.1, setErr, bump]
           refine ⟨by simpa using hstop, ?_, ?_, ?_⟩ <;> (unfold appendSink; split <;> rfl)
+
+/-! ## C15R3 — operator texts generated from the typing model; rejected parses over all sequences -/
+
+/-- The operands of the generated operator texts have the static types they are meant to have: `typeOfExpr` (the
+parser's `exp->type(ctx)`) of each operand AST, in a context where the three reserved variables are declared, is the
+operand's nominal type — for all 5 forms × 3 types. -/
+theorem atom_static_type (f : OForm) (t : OTy) : atomTy f t = t.ty := by
+  cases f <;> cases t <;> decide
+
+
+example : atomTy .memb .bool = Ty.bool ∧ atomTy .call .int = Ty.int ∧ atomTy .paren .str = Ty.str := by decide
+
+/-- the spellings cover every non-empty entry of `Operator::OPVALS` (generated table `Gen.opvals`) except the member
+operator `.` — a test over that table, by evaluation -/
+example : ((Gen.opvals).filter fun w => w != "" && w != ".").all
+    (fun w => (binSpellings.map (·.1)).contains w || (unSpellings.map (·.1)).contains w) = true := by decide
+
+/-- `typed_rejection_iff` (`bloc_parse_expression`): the i-th generated operator text, parsed in ANY state in which the
+context is live, the expression slot free and the variables the text reads are registered, is rejected — NULL,
+`bloc_errno() = EXC_PARSE_TYPE_MISMATCH_S` — if and only if the typing model (`Typing.acceptBin` / `acceptUn`; `acceptMatch`
+for `matches`) rejects the static types of its operands; and it parses iff the typing model accepts them. -/
+theorem typed_rejection_iff (s : State) (c e i : Nat) (x : Ctx) (oc : OpCase) (t : ExprText)
+    (hx : getCtx s c = some x) (hslot : s.exprs[e]? = some none)
+    (hi : opCases[i]? = some oc) (ht : opExprText i = some t) (hs : oc.symsOk x) :
+    ((step s (.eparse c e t)).2.fail = some Gen.EXC_PARSE_TYPE_MISMATCH_S ∧ (step s (.eparse c e t)).2.res = Res1.null
+        ↔ oc.accepted = false) ∧
+    ((step s (.eparse c e t)).2.fail = none ∧ (step s (.eparse c e t)).2.res = Res1.unit ↔ oc.accepted = true) := by
+  unfold opExprText at ht
+  rw [hi] at ht
+  simp only at ht
+  by_cases hr : oc.rejected = true
+  · have ha : oc.accepted = false := by simpa [OpCase.rejected] using hr
+    simp only [hr, ↓reduceIte, Option.some.injEq] at ht
+    subst ht
+    simp [step, opEparse, hx, hslot, opBad_expr_lookup i oc hi hr, codeIn_of_symsOk oc x hs, ha]
+  · have ha : oc.accepted = true := by simpa [OpCase.rejected] using hr
+    simp only [hr, Bool.false_eq_true, ↓reduceIte, Option.map_eq_some_iff] at ht
+    obtain ⟨ex, _, rfl⟩ := ht
+    simp [step, opEparse, hx, hslot, ha]
+
+
+/-- the same through `bloc_parse_executable`, with the position the call writes to `*pos`: the last character of the
+text (the `;` that follows the right operand), computed from the text layout by `endPos` -/
+theorem typed_rejection_iff_prog (s : State) (c xi i : Nat) (pos : Bool) (x : Ctx) (oc : OpCase) (t : ProgText)
+    (hx : getCtx s c = some x) (hslot : s.execs[xi]? = some none)
+    (hi : opCases[i]? = some oc) (ht : opProgText i = some t) :
+    ((step s (.xparse c xi t pos)).2.fail = some Gen.EXC_PARSE_TYPE_MISMATCH_S ∧
+      (step s (.xparse c xi t pos)).2.res = (if pos then Res1.nullAt (endPos oc.progSrc).1 (endPos oc.progSrc).2 else Res1.null)
+        ↔ oc.accepted = false) ∧
+    ((step s (.xparse c xi t pos)).2.fail = none ∧ (step s (.xparse c xi t pos)).2.res = Res1.unit ↔ oc.accepted = true) := by
+  unfold opProgText at ht
+  rw [hi] at ht
+  simp only at ht
+  by_cases hr : oc.rejected = true
+  · have ha : oc.accepted = false := by simpa [OpCase.rejected] using hr
+    simp only [hr, ↓reduceIte, Option.some.injEq] at ht
+    subst ht
+    simp [step, opXparse, hx, hslot, opBad_prog_lookup i oc hi hr, ha, OpCase.badProg]
+  · have ha : oc.accepted = true := by simpa [OpCase.rejected] using hr
+    simp only [hr, Bool.false_eq_true, ↓reduceIte, Option.map_eq_some_iff] at ht
+    obtain ⟨ex, _, rfl⟩ := ht
+    simp [step, opXparse, hx, hslot, ha]
+
+-- non-vacuity: case 1 is `1 + "a"` (rejected), case 0 is `1 + 1` (accepted); the hypotheses hold in a fresh context
+example : (opCases[1]?).map (fun oc => (oc.body, oc.accepted)) = some ("1 + \"a\"", false) := by decide
+example : (opCases[0]?).map (fun oc => (oc.body, oc.accepted)) = some ("1 + 1", true) := by decide
+example : (opCases[1]?).map (fun oc => oc.vars) = some [] := by decide
+example : (opCases.length, (opCases.filter OpCase.rejected).length) = (1200, 880) := by decide +kernel
+example : ((step (step State.init (.cnew 0)).1 (.eparse 0 0 (.bad (opBadIndex handBadExprs.length 1)))).2.fail) =
+    some Gen.EXC_PARSE_TYPE_MISMATCH_S := by decide +kernel
+-- a `var` form text before its variables exist: an undefined symbol, not a type mismatch (hypothesis `symsOk` matters)
+example : (opCases[10]?).map (fun oc => (oc.body, oc.accepted, oc.vars)) = some ("v_i9 + v_s9", false, [("V_I9", Ty.int), ("V_S9", Ty.str)]) := by decide
+example : ((step (step State.init (.cnew 0)).1 (.eparse 0 0 (.bad (opBadIndex handBadExprs.length 10)))).2.fail) =
+    some Gen.EXC_PARSE_UNDEFINED_SYMBOL_S := by decide +kernel
+-- the column rule on a catalog text whose position was observed: `q9 = 1 - "abc";` is reported at 1:15
+example : endPos "q9 = 1 - \"abc\";" = (1, 15) := by decide
+
+/-- `rejected_parse_contract`, one call of `bloc_parse_expression`: for EVERY state and EVERY text of the catalog (hand-written
+or generated) with its code `code` in that context — the call returns NULL, reports `code`, the error record is exactly
+`code`; no handle is created (all five handle tables of the host are what they were: in particular every caller-owned value
+is untouched); context `c` got the fresh epoch and is otherwise unchanged; every OTHER context is unchanged. -/
+theorem rejected_parse_contract_expr (s : State) (c e k : Nat) (x : Ctx) (bt : BadText) (code : Nat)
+    (hx : getCtx s c = some x) (hslot : s.exprs[e]? = some none) (hb : badExprs[k]? = some bt) (hc : bt.codeIn x = some code) :
+    (step s (.eparse c e (.bad k))).2.res = Res1.null ∧
+    (step s (.eparse c e (.bad k))).2.fail = some code ∧
+    (step s (.eparse c e (.bad k))).1.err = { code := code, msg := true } ∧
+    (step s (.eparse c e (.bad k))).1.exprs = s.exprs ∧ (step s (.eparse c e (.bad k))).1.execs = s.execs ∧
+    (step s (.eparse c e (.bad k))).1.syms = s.syms ∧ (step s (.eparse c e (.bad k))).1.vals = s.vals ∧
+    (step s (.eparse c e (.bad k))).1.sinks = s.sinks ∧
+    (step s (.eparse c e (.bad k))).1.ctxs = s.ctxs.set c { x with epoch := s.clock } ∧
+    (step s (.eparse c e (.bad k))).1.clock = s.clock + 1 := by
+  simp [step, opEparse, hx, hslot, hb, hc, setErr, razErr, bump]
+
+
+/-- `rejected_parse_contract`, one call of `bloc_parse_executable`: the same, with `*pos`; the context additionally keeps the
+symbols the parser registered before it failed (appended) and gets upgraded symbol types back (`parsingEnd`). -/
+theorem rejected_parse_contract_prog (s : State) (c xi k : Nat) (pos : Bool) (x : Ctx) (bt : BadText)
+    (hx : getCtx s c = some x) (hslot : s.execs[xi]? = some none) (hb : badProgs[k]? = some bt) :
+    (step s (.xparse c xi (.bad k) pos)).2.res = (if pos then Res1.nullAt bt.line bt.col else Res1.null) ∧
+    (step s (.xparse c xi (.bad k) pos)).2.fail = some bt.code ∧
+    (step s (.xparse c xi (.bad k) pos)).1.err = { code := bt.code, msg := true } ∧
+    (step s (.xparse c xi (.bad k) pos)).1.exprs = s.exprs ∧ (step s (.xparse c xi (.bad k) pos)).1.execs = s.execs ∧
+    (step s (.xparse c xi (.bad k) pos)).1.syms = s.syms ∧ (step s (.xparse c xi (.bad k) pos)).1.vals = s.vals ∧
+    (step s (.xparse c xi (.bad k) pos)).1.sinks = s.sinks ∧
+    (step s (.xparse c xi (.bad k) pos)).1.ctxs = s.ctxs.set c { restoreBacked (addSyms x bt.newSyms) with epoch := s.clock } ∧
+    (step s (.xparse c xi (.bad k) pos)).1.clock = s.clock + 1 := by
+  simp [step, opXparse, hx, hslot, hb, setErr, bump]
+
+
+example : (badExprs[0]?).map (·.codeIn {}) = some (some Gen.EXC_PARSE_UNEXPECTED_LEX_S) := by decide
+
+/-- … "bumps the context's epoch: library-owned pointers of that context die": after ANY call that installs the fresh epoch
+in context `c` (the two theorems above say a rejected parse does) every library-owned pointer of `c` that was live is dead. -/
+theorem library_pointers_die (s s' : State) (c : Nat) (x x' : Ctx) (r : VRef) (hw : ∀ (d : Nat) (y : Ctx), s.ctxs[d]? = some y → y.epoch < s.clock)
+    (hx : getCtx s c = some x) (hs' : s'.ctxs = s.ctxs.set c { x' with epoch := s.clock })
+    (hk : r.kind ≠ .boxItem) (hc : r.ctx = c) (hl : refLive s r = true) : refLive s' r = false := by
+  have hlt := ctx_lt_of_getCtx hx
+  have hxe : x.epoch < s.clock := hw c x ((getCtx_eq_some s c x).1 hx).1
+  unfold refLive at hl ⊢
+  split
+  · rename_i hkk; exact absurd hkk hk
+  · split at hl
+    · rename_i hkk; exact absurd hkk hk
+    · rw [hc, hx] at hl
+      simp only [beq_iff_eq] at hl
+      rw [hc]
+      unfold getCtx
+      rw [hs']
+      simp only [List.getElem?_set_self hlt]
+      split
+      · rename_i y hy
+        split at hy
+        · simp only [Option.some.injEq] at hy
+          subst hy
+          simp only [beq_eq_false_iff_ne, ne_eq]
+          omega
+        · cases hy
+      · rfl
+
+
+/-- `rejected_parse_contract` over ALL sequences of rejected parse calls — any texts of the catalogs, through either entry
+point, in any contexts, in any order, from ANY state: no handle is created, nothing the caller owns changes, every context
+keeps its liveness, generation, functions, returned value, stop condition and every variable its value. -/
+theorem rejected_parses_touch_nothing : ∀ (ops : List Op) (s : State), (∀ o ∈ ops, isBadParse o = true) →
+    Untouched s (runSeq s ops).1
+  | [], s, _ => Untouched.refl s
+  | o :: os, s, h => by
+    simp only [runSeq]
+    exact (step_badParse_untouched s o (h o (by simp))).trans
+      (rejected_parses_touch_nothing os (step s o).1 (fun o' ho' => h o' (by simp [ho'])))
+
+
+/-- `usable_after_reject`: after any such sequence a context that was live accepts every text it accepted before — every
+good expression and every good program parses (into any slot that was free), and the handles of the context stay valid
+(same generation, handle tables unchanged). -/
+theorem usable_after_reject (ops : List Op) (s : State) (c : Nat) (x : Ctx) (hall : ∀ o ∈ ops, isBadParse o = true)
+    (hx : getCtx s c = some x) :
+    (∃ x', getCtx (runSeq s ops).1 c = some x' ∧ x'.gen = x.gen) ∧
+    (∀ (e : Nat) (ex : Expr), s.exprs[e]? = some none →
+      (step (runSeq s ops).1 (.eparse c e (.good ex))).2.res = Res1.unit ∧ (step (runSeq s ops).1 (.eparse c e (.good ex))).2.fail = none) ∧
+    (∀ (xi : Nat) (p : List Stmt) (pos : Bool), s.execs[xi]? = some none →
+      (step (runSeq s ops).1 (.xparse c xi (.good p) pos)).2.res = Res1.unit ∧ (step (runSeq s ops).1 (.xparse c xi (.good p) pos)).2.fail = none) := by
+  obtain ⟨h1, h2, _, _, _, h6⟩ := rejected_parses_touch_nothing ops s hall
+  have hxc := (getCtx_eq_some s c x).1 hx
+  obtain ⟨x', hx', hk⟩ := h6 c x hxc.1
+  have hg : getCtx (runSeq s ops).1 c = some x' := (getCtx_eq_some _ c x').2 ⟨hx', by rw [hk.1]; exact hxc.2⟩
+  refine ⟨⟨x', hg, hk.2.1⟩, ?_, ?_⟩
+  · intro e ex he
+    simp [step, opEparse, hg, h1, he]
+  · intro xi p pos he
+    simp [step, opXparse, hg, h2, he]
+
+
+-- non-vacuity: three rejected parses (a generated operator text, a hand-written text through each entry point) are such a sequence
+example : ([Op.eparse 0 0 (.bad (opBadIndex handBadExprs.length 1)), .xparse 0 0 (.bad 4) true, .eparse 0 1 (.bad 0)].all isBadParse) = true := by decide
+
+/-! ## C15R3 — two statements NOTES-C15 listed as not proved -/
+
+/-- The accessor contract as a contract of the CALL, in every state: on a readable value the call succeeds iff the type
+matches, hands out the data (NULL iff the value is null) and changes nothing; else it returns `bloc_false`, the record holds the
+accessor's own code and nothing else changes. -/
+theorem accessor_call_contract (s : State) (v : Nat) (k : Acc) (x : Val) (hr : readSlot s v = some x) :
+    (k.matches x.type = true → (step s (.acc v k)).2.res = Res1.acc x.isNull x ∧ (step s (.acc v k)).2.fail = none ∧ (step s (.acc v k)).1 = s) ∧
+    (k.matches x.type = false → (step s (.acc v k)).2.res = Res1.truth false ∧ (step s (.acc v k)).2.fail = some k.failCode ∧
+      (step s (.acc v k)).1 = setErr s k.failCode) := by
+  constructor <;> intro hm <;> simp [step, opAcc, hr, accessor, hm, Out.of]
+
+
+/-- … and therefore at every position of every call sequence from every state. -/
+theorem accessor_contract_along_sequences (ops : List Op) (s : State) (i v : Nat) (k : Acc) (x : Val)
+    (hi : ops[i]? = some (.acc v k)) (hr : readSlot (runSeq s (ops.take i)).1 v = some x) :
+    ∃ out, (runSeq s ops).2[i]? = some out ∧
+      (k.matches x.type = true → out.res = Res1.acc x.isNull x ∧ out.fail = none) ∧
+      (k.matches x.type = false → out.res = Res1.truth false ∧ out.fail = some k.failCode) := by
+  refine ⟨_, runSeq_out ops s i _ hi, ?_, ?_⟩
+  · intro hm; have := (accessor_call_contract _ v k x hr).1 hm; exact ⟨this.1, this.2.1⟩
+  · intro hm; have := (accessor_call_contract _ v k x hr).2 hm; exact ⟨this.1, this.2.1⟩
+
+
+example : (readSlot (runSeq State.init [.cnew 0, .vint 0 42]).1 0).map (·.type) = some Ty.int := by decide
+
+/-- While the stop condition of a context is held (`bloc_break`, or a `return` that ran), `bloc_execute` runs NOTHING: it
+returns `bloc_true`, does not touch the error record, and the only change of the whole state is the new epoch of the context. -/
+theorem held_run_is_noop (s : State) (xi : Nat) (h : ExecH) (x : Ctx) (hu : execUsable s xi = some h)
+    (hx : getCtx s h.ctx = some x) (hstop : x.stop = true) :
+    (step s (.exec xi)).2.res = Res1.truth true ∧ (step s (.exec xi)).2.fail = none ∧ (step s (.exec xi)).1 = bump s h.ctx x := by
+  simp [step, opExec, hu, hx, runIn, hstop]
+
+
+/-- `bloc_break` / a `return` that ran HOLD: over ANY call sequence that contains none of `bloc_reset_stop`, `bloc_ctx_purge`,
+`bloc_free_context` on context c — whatever else is called, on this or any other context, succeeding or failing — a live
+context whose stop condition is held stays live with the condition held. -/
+theorem stop_held_until_release (c : Nat) : ∀ (ops : List Op) (s : State) (x : Ctx),
+    s.ctxs[c]? = some x → x.live = true → x.stop = true → (∀ o ∈ ops, releases c o = false) →
+    ∃ x', (runSeq s ops).1.ctxs[c]? = some x' ∧ x'.live = true ∧ x'.stop = true
+  | [], _, x, h0, hl, hs, _ => ⟨x, h0, hl, hs⟩
+  | o :: os, s, x, h0, hl, hs, hall => by
+    simp only [runSeq]
+    have hlen := step_ctxs_length s (step s o).1 (step s o).2 o rfl
+    have hc : c < (step s o).1.ctxs.length := by
+      rw [hlen]
+      rcases Nat.lt_or_ge c s.ctxs.length with h | h
+      · exact h
+      · rw [List.getElem?_eq_none h] at h0; cases h0
+    have h1 : (step s o).1.ctxs[c]? = some (step s o).1.ctxs[c] := by simp [hc]
+    have hk := step_stop_held s _ _ o c x _ rfl h0 h1 hl hs (hall o (by simp))
+    exact stop_held_until_release c os (step s o).1 _ h1 hk.1 hk.2 (fun o' ho' => hall o' (by simp [ho']))
+
+
+/-- … and so, after any such sequence, running an executable of that context still runs nothing. -/
+theorem nothing_runs_while_held (c xi : Nat) (ops : List Op) (s : State) (x : Ctx) (h : ExecH)
+    (h0 : s.ctxs[c]? = some x) (hl : x.live = true) (hs : x.stop = true) (hall : ∀ o ∈ ops, releases c o = false)
+    (hu : execUsable (runSeq s ops).1 xi = some h) (hc : h.ctx = c) :
+    ∃ x', getCtx (runSeq s ops).1 c = some x' ∧
+      (step (runSeq s ops).1 (.exec xi)).2.res = Res1.truth true ∧ (step (runSeq s ops).1 (.exec xi)).2.fail = none ∧
+      (step (runSeq s ops).1 (.exec xi)).1 = bump (runSeq s ops).1 c x' := by
+  obtain ⟨x', hx', hl', hs'⟩ := stop_held_until_release c ops s x h0 hl hs hall
+  have hg : getCtx (runSeq s ops).1 c = some x' := (getCtx_eq_some _ c x').2 ⟨hx', hl'⟩
+  subst hc
+  exact ⟨x', hg, held_run_is_noop _ xi h x' hu hg hs'⟩
+
+
+-- non-vacuity: after `bloc_break` the stop is held in a live context; parsing and registering do not release it
+example : (((runSeq State.init [.cnew 0, .brk 0, .reg 0 0 "I1" .int 0, .eparse 0 0 (.bad 0)]).1.ctxs[0]?).map fun x => (x.live, x.stop)) = some (true, true) := by decide
+example : ([Op.reg 0 0 "I1" .int 0, .eparse 0 0 (.bad 0), .brk 0, .cpurge 1].all fun o => !releases 0 o) = true := by decide
+
+/-- `purge` semantics for what was parsed / registered before it: after `bloc_ctx_purge(c)`, over ANY later call sequence
+(any calls on any contexts: new parses, runs, frees, re-creation of the slot, further purges), every executable,
+expression and symbol handle of `c` of an older generation (`gen < clock at the purge`: every handle that existed then,
+since generations are clock values) stays unusable — `bloc_execute` / `bloc_execute2` / `bloc_evaluate_expression` /
+`bloc_expression_type` / store / load with it violate the precondition (`pre`: the host must not make the call; the executable
+still has to be freed). Handles created after the purge carry the new generation and are not concerned. -/
+theorem purge_ends_handles_forever (s : State) (c : Nat) (x : Ctx) (ops : List Op) (hx : getCtx s c = some x) :
+    (∀ (xi : Nat) (h : ExecH), (runSeq (step s (.cpurge c)).1 ops).1.execs[xi]? = some (some h) → h.ctx = c → h.gen < s.clock →
+      execUsable (runSeq (step s (.cpurge c)).1 ops).1 xi = none ∧
+      (step (runSeq (step s (.cpurge c)).1 ops).1 (.exec xi)).2.res = Res1.pre) ∧
+    (∀ (e : Nat) (h : ExprH), (runSeq (step s (.cpurge c)).1 ops).1.exprs[e]? = some (some h) → h.ctx = c → h.gen < s.clock →
+      exprUsable (runSeq (step s (.cpurge c)).1 ops).1 e c = none) ∧
+    (∀ (sh : Nat) (h : SymH), (runSeq (step s (.cpurge c)).1 ops).1.syms[sh]? = some (some h) → h.ctx = c → h.gen < s.clock →
+      symLive (runSeq (step s (.cpurge c)).1 ops).1 sh c = none) := by
+  have hf := genFloor_runSeq c s.clock ops _ (genFloor_after_purge s c x hx)
+  generalize (runSeq (step s (.cpurge c)).1 ops).1 = t at hf
+  have key : ∀ (y : Ctx) (g : Nat), getCtx t c = some y → g < s.clock → (g == y.gen) = false := by
+    intro y g hy hg
+    have := (getCtx_eq_some t c y).1 hy
+    have := hf.2 y this.1 this.2
+    simp only [beq_eq_false_iff_ne, ne_eq]
+    omega
+  refine ⟨?_, ?_, ?_⟩
+  · intro xi h hh hc hg
+    have hu : execUsable t xi = none := by
+      unfold execUsable
+      rw [hh]
+      simp only [hc]
+      split
+      · rename_i y hy
+        simp [key y h.gen hy hg]
+      · rfl
+    exact ⟨hu, by simp [step, opExec, hu, Out.pre]⟩
+  · intro e h hh hc hg
+    unfold exprUsable
+    rw [hh]
+    split
+    · rename_i h' y heq hy
+      simp only [Option.some.injEq] at heq
+      subst heq
+      simp [key y h.gen hy hg]
+    · rfl
+  · intro sh h hh hc hg
+    unfold symLive
+    rw [hh]
+    split
+    · rename_i h' y heq hy
+      simp only [Option.some.injEq] at heq
+      subst heq
+      simp [key y h.gen hy hg]
+    · rfl
+
+-- non-vacuity: an executable parsed before the purge sits in its slot afterwards, with a generation older than the purge
+example :
+    let s := (runSeq State.init [.cnew 0, .xparse 0 0 (.good [.nop]) true]).1
+    ((s.execs[0]?).map fun h => h.map fun h => (h.ctx, decide (h.gen < s.clock))) = some (some (0, true)) ∧
+    ((step (step s (.cpurge 0)).1 (.exec 0)).2.res matches Res1.pre) = true := by decide
+
+/-! ## C15R3 — isolation of contexts under API calls (TASK section 3, the part the present model can state) -/
+
+/-- `cross_context_isolation` for API calls, over ALL call sequences: whatever is called in OTHER contexts — parses, runs,
+failing runs, stores, assigns through loaded pointers, purge, free, clones taken FROM `d` and everything done in those
+clones — slot `d` of the context table is exactly what it was: same variables and values, symbols, functions, returned
+value, stop condition, generation and EPOCH. -/
+theorem cross_context_isolation (d : Nat) : ∀ (ops : List Op) (s : State), untargeted d s ops = true →
+    (runSeq s ops).1.ctxs[d]? = s.ctxs[d]?
+  | [], _, _ => rfl
+  | o :: os, s, h => by
+    simp only [untargeted, Bool.and_eq_true, Bool.not_eq_true'] at h
+    simp only [runSeq]
+    rw [cross_context_isolation d os (step s o).1 h.2, step_untargeted s o d h.1]
+
+/-- … hence every library-owned pointer into `d` the host holds is exactly as live as before and reads the same value. -/
+theorem cross_context_pointers (d : Nat) (ops : List Op) (s : State) (r : VRef) (id : Nat) (h : untargeted d s ops = true)
+    (hroot : r.root = .slot d id) (hctx : r.ctx = d) :
+    refLive (runSeq s ops).1 r = refLive s r ∧ readRef (runSeq s ops).1 r = readRef s r := by
+  have hc := cross_context_isolation d ops s h
+  have hg : getCtx (runSeq s ops).1 d = getCtx s d := by unfold getCtx; rw [hc]
+  constructor
+  · unfold refLive; rw [hctx, hg]
+  · unfold readRef; rw [hroot]; unfold readRoot; simp only [hg]
+
+
+-- non-vacuity: context 0 is cloned, the clone gets a new symbol, a store, a purge and is freed; a failing parse in a third context
+example :
+    let s := (runSeq State.init [.cnew 0, .reg 0 0 "I1" .int 0]).1
+    untargeted 0 s [.cclone 0 1 2, .reg 1 1 "I2" .int 0, .vint 0 5, .store 1 1 0 true, .cpurge 1, .cfree 1, .cnew 2, .eparse 2 0 (.bad 0)] = true := by
+  decide
 
 end BlocV.C15
